@@ -118,6 +118,7 @@ def run(ctx):
     if tvh is None:
         ctx.violation("harness does not build against /repo", {"unchecked": "cargo build"}, concrete=False)
         return
+    regression_lines(ctx, tvh, ["c11"])
     icases, lcases, fb, gb, sd = gen(ctx)
     # std's Display text for every float (an input of the model, validated by `dispok`)
     rc, fdisp, _ = run_lines(tvh, "c11", [f"fd {b:016x}" for b in fb] + [f"gd {b:08x}" for b in gb])
